@@ -153,7 +153,7 @@ JDecode(ty, in, dest, obs) ==
             (IF r.st = "ok" /\ r.n < Len(in) THEN "+trail" ELSE "") \o ">" \o obs.out,
     fail |->
       If(obs.inpre = obs.inpost, "in_unchanged") \cup
-      If(obs.alloc <= AllocBound(Len(in)), "dec_alloc") \cup
+      If(obs.alloc <= AllocBound(Len(in)) /\ ("halloc" \notin DOMAIN obs \/ obs.halloc <= AllocBound(Len(in))), "dec_alloc") \cup
       If(obs.us <= 2000000, "dec_time") \cup
       ( IF r.st = "ok" /\ r.q THEN
              \* an empty container with an illegal element type code inside a skipped field:
@@ -231,7 +231,7 @@ JScale(line) ==
 \* proportion (a sub-allocator whose blocks grow without bound shows up here)
 JRepeat(line) ==
   [ cls |-> "Repeat>" \o line.obs.out,
-    fail |-> If(line.obs.maxalloc <= AllocBound(line.len), "dec_alloc") ]
+    fail |-> If(line.obs.maxalloc <= AllocBound(line.len) /\ line.obs.maxhook <= AllocBound(line.len), "dec_alloc") ]
 
 \* ---- legacy JIT controls (C17) ----------------------------------------------------
 \* Their own contract: Pretouch accepts anything and returns nil, the setters return their
